@@ -50,6 +50,59 @@ def r12_1(ctx) -> None:
               "= {d,p,q,dp,dq,qi,oth,k}", construct="private member set")
 
 
+def _as_dict_folded(ctx, fn) -> Optional[List[str]]:
+    """Fold BaseKey.as_dict on probe keys (an oct key, a private and a public RSA key; private None / True / False; with and without extra params,
+    one of which carries the name of a private member): the result is a new dict holding the key's members - without those the class's
+    value_registry flags private when `private is False` - overlaid with the params; the key's own dict view is neither returned nor changed; a
+    public key asked for its private form refuses with ValueError.  None when it does not fold or a test was decided one way only."""
+    from ..fold import Inst, FuncVal, FoldRaise, is_unknown
+    eng = ctx.eng
+    P, F = eng.prog, eng.folder
+    probes = [("rfc7518.oct_key:OctKey", {"kty": "oct", "k": "S", "kid": "1"}, True),
+              ("rfc7518.rsa_key:RSAKey", {"kty": "RSA", "n": "N", "e": "E", "d": "D", "p": "P", "q": "Q", "dp": "1", "dq": "2", "qi": "3", "kid": "2"}, True),
+              ("rfc7518.rsa_key:RSAKey", {"kty": "RSA", "n": "N", "e": "E", "alg": "RS256"}, False),
+              ("rfc7518.ec_key:ECKey", {"kty": "EC", "crv": "P-256", "x": "X", "y": "Y", "d": "D"}, True)]
+    problems: List[str] = []
+    F.start_trace()
+    try:
+        for cname, dv, is_priv in probes:
+            c = P.cls(cname)
+            reg = F.class_attr(c, "value_registry")
+            if not isinstance(reg, dict):
+                return None
+            flagged = {k for k, p_ in reg.items() if F.get_attr(p_, "private") is True}
+            for priv in (None, True, False):
+                for params in ({}, {"use": "sig"}, {"use": "sig", next(iter(flagged), "zz"): "PARAM"}):
+                    inst = Inst(c, {"dict_value": dict(dv), "is_private": is_priv})
+                    own = inst.attrs["dict_value"]
+                    where = f"{c.name}({'private' if is_priv else 'public'}).as_dict(private={priv!r}, **{params!r})"
+                    try:
+                        r = F.call(FuncVal(c.lookup("as_dict"), None, inst), [priv], dict(params))
+                    except FoldRaise as ex:
+                        if not (priv is True and not is_priv and getattr(ex, "name", "") == "ValueError"):
+                            problems.append(f"{where} raises {getattr(ex, 'name', '?')}")
+                        continue
+                    if is_unknown(r) or not isinstance(r, dict):
+                        return None
+                    if priv is True and not is_priv:
+                        problems.append(f"{where}: a public key hands out a 'private' form")
+                        continue
+                    base = {k: v for k, v in dv.items() if not (priv is False and k in flagged)}
+                    want = dict(base)
+                    want.update(params)
+                    if r != want:
+                        problems.append(f"{where} folds to the members {sorted(r)}, expected {sorted(want)}" + (" (values differ)" if sorted(r) == sorted(want) else ""))
+                    if r is own:
+                        problems.append(f"{where} returns the key's own dict view")
+                    if own != dv:
+                        problems.append(f"{where} changes the key's own dict view")
+    except AnalysisError:
+        return None
+    finally:
+        sided = F.one_sided(ignore=(".__init__",))
+    return None if sided else problems
+
+
 def r12_2(ctx) -> None:
     eng = ctx.eng
     bk = eng.prog.cls("rfc7517.models:BaseKey")
@@ -60,6 +113,11 @@ def r12_2(ctx) -> None:
     over = [f for f in eng.prog.implementations(bk, "as_dict") if f is not fn]
     ctx.check(not over, "R12.2", over[0] if over else None, over[0].node if over else None, "as_dict overrides", "a key class overrides as_dict (the private filter is bypassed)",
               "single implementation", construct="as_dict override")
+    folded = _as_dict_folded(ctx, fn)
+    if folded is not None:
+        ctx.check(not folded, "R12.2", fn, fn.node, f"{fn.short} (folded on probe keys)", "as_dict does not return a fresh copy of the key's dict view without the private members when private is False: "
+                  + "; ".join(folded[:2]), "fresh dict; private=False removes the members flagged private; params added; a public key refuses private=True", construct="as_dict private filter")
+        return
     cfg = cfg_of(fn)
     sn = fn.self_name
     pp = "private"
